@@ -10,7 +10,8 @@ from auditok.io import BufferAudioSource, RawAudioSource, WaveAudioSource
 
 from .models import frame as F
 
-SOURCE_KINDS = ("bytes", "buffer_obj", "raw_eager", "raw_lazy", "wav_eager", "wav_lazy", "raw_obj", "wav_obj", "stdin", "buffer_obj_preconsumed")
+SOURCE_KINDS = ("bytes", "buffer_obj", "raw_eager", "raw_lazy", "wav_eager", "wav_lazy", "raw_obj", "wav_obj", "stdin", "buffer_obj_preconsumed",
+                "raw_fifo_lazy")
 PRECONSUMED = 3  # samples already read from the source before the reader got it
 
 
@@ -54,9 +55,13 @@ def random_reader_case(rng, max_blocks=4, small=True):
         hfrac = 0
         if hop == block:
             bfrac = max(bfrac, 0)
+    kind = rng.choice(SOURCE_KINDS)
+    record = rng.random() < 0.3
+    if kind == "raw_fifo_lazy":
+        record = False  # a named pipe cannot be opened a second time once its writer is gone
     return dict(bfrac=bfrac, hfrac=hfrac, width=width, channels=channels, rate=rate, block=block, hop=hop, nsamples=nsamples,
-                max_read_samples=max_read_samples, kind=rng.choice(SOURCE_KINDS), extra_reads=rng.randint(1, 5),
-                record=rng.random() < 0.3, seed=rng.getrandbits(32), magic=magic)
+                max_read_samples=max_read_samples, kind=kind, extra_reads=rng.randint(1, 5),
+                record=record, seed=rng.getrandbits(32), magic=magic)
 
 
 def audio_of(case):
@@ -123,6 +128,49 @@ def build_reader(case, data, tmpdir, cls=AudioReader, record=None):
         if kind == "raw_obj":
             return cls(RawAudioSource(path, rate, width, channels), **kw), cleanup
         return cls(path, large_file=(kind == "raw_lazy"), audio_format="raw", **kw, **ap), cleanup
+    if kind == "raw_fifo_lazy":
+        # the "raw file" is a named pipe fed in bursts smaller than a block
+        import random
+        import threading
+        import time as _time
+
+        path = os.path.join(tmpdir, "in.fifo")
+        if os.path.exists(path):
+            os.unlink(path)
+        os.mkfifo(path)
+        r_ = random.Random(case["seed"])
+        chunks, i = [], 0
+        while i < len(data):
+            k = r_.randint(1, max(1, min(7, case["block"] * width * channels - 1)))
+            chunks.append(data[i : i + k])
+            i += k
+
+        def feed():
+            try:
+                with open(path, "wb", buffering=0) as w:
+                    for c in chunks:
+                        w.write(c)
+                        _time.sleep(0)
+            except OSError:
+                pass
+
+        th = threading.Thread(target=feed, daemon=True, name="vf-fifo-feeder")
+        th.start()
+
+        def cleanup_fifo():
+            try:
+                fd = os.open(path, os.O_RDONLY | os.O_NONBLOCK)
+                os.close(fd)
+            except OSError:
+                pass
+            th.join(5)
+            sys.stdin = old_stdin
+
+        try:
+            return cls(path, large_file=True, audio_format="raw", **kw, **ap), cleanup_fifo
+        except Exception:
+            cleanup_fifo()
+            raise
     if kind in ("wav_eager", "wav_lazy", "wav_obj"):
         path = os.path.join(tmpdir, "in.wav")
         with wave.open(path, "wb") as fp:
